@@ -225,6 +225,8 @@ def run_C13(ctx):
             if lb is None:
                 continue
             rules = "\n".join("rule %s { x %s %s }" % (n, o, lb) for n, o in OPS6) + "\n"
+            # the same comparisons under a prefix not (the negated comparator of operators.rs)
+            rules += "\n".join("rule n_%s { not x %s %s }" % (n, o, lb) for n, o in OPS6 if n != "ne") + "\n"
             cases.append({"rules": rules, "data": json.dumps({"x": a})})
             meta.append(("six", a, b))
     # ranges
@@ -281,10 +283,19 @@ def run_C13(ctx):
         if fam == "six":
             P = {n: st[n] == "PASS" for n, _ in OPS6}
             ka, kb = kind_of(a), kind_of(b)
+            NP = {n: st.get("n_" + n) == "PASS" for n, _ in OPS6 if n != "ne"}
+            if ka == kb and ka in ("int", "float", "str"):
+                if any(NP[n] == P[n] for n in NP):
+                    fail = "a comparable pair satisfies (or fails) a comparison under both polarities: %s / not: %s" % (P, NP)
+            elif ka != kb and ka not in ("list",) and kb not in ("list",):
+                if any(NP.values()):
+                    fail = "values of different types satisfied a negated comparison: %s" % NP
             if ka == kb and ka in ("int", "float", "str"):
                 c = py_cmp(a, b)
                 exp = {"lt": c < 0, "eq": c == 0, "gt": c > 0, "le": c <= 0, "ge": c >= 0, "ne": c != 0}
-                if P != exp:
+                if fail:
+                    pass
+                elif P != exp:
                     fail = "same-type ordered scalars: expected %s got %s" % (exp, P)
                 elif sum([P["lt"], P["eq"], P["gt"]]) != 1:
                     fail = "trichotomy violated"
@@ -953,6 +964,9 @@ RULE_CLASSES = {
     "chk2": "rule chk2 {\n x == 1 or x == 3\n y exists\n}\n",
     "skp": "rule skp when zz exists { x == 1 }\n",
     "ok": "rule ok { x exists }\n",
+    # status depends on the document: SKIP on the compliant one, FAIL / PASS on the other
+    "cond": "rule cond when x == 2 { y == 3 }\n",
+    "condok": "rule condok when x == 2 { y == 2 }\n",
     "broken": "rule b { x == }\n",
     "empty": "# nothing here\n",
     "unreadable": b"\xff\xfe rule z { x == 1 }\n",
@@ -977,6 +991,19 @@ def c06_scenarios(rng, n, exhaustive_pairs=True):
             for d in dcls:
                 for m in modes:
                     out.append(([r], [d], m))
+        # every rules class x every ORDERED pair of documents, and every ordered pair of rules classes x one document:
+        # the folds over files (a later result must not erase an earlier one) in every mode
+        for r in rcls:
+            for d1 in dcls:
+                for d2 in dcls:
+                    for m in modes:
+                        if m != "stdin":
+                            out.append(([r], [d1, d2], m + ("+dir" if m in ("plain", "json", "junit") and (len(out) % 3 == 0) else "")))
+        for r1 in rcls:
+            for r2 in rcls:
+                for d in ("good", "bad"):
+                    for m in modes:
+                        out.append(([r1, r2], [d], m))
     while len(out) < n:
         rs = [rng.choice(rcls) for _ in range(rng.choice([1, 2, 2, 3]))]
         ds = [rng.choice(dcls[:3] if rng.random() < 0.85 else dcls) for _ in range(rng.choice([1, 2, 3]))]
@@ -1029,7 +1056,7 @@ def run_C06(ctx):
                  "plain/structured, stdin}, run with the REAL binary for the process exit status; `cfn-guard test` with "
                  "matching / mismatching / unparsable test files, single file and --dir; non-trivial = distinct scenario")
     rng = random.Random(ctx.seed)
-    scen = c06_scenarios(rng, 6000 if ctx.thorough() else 700)
+    scen = c06_scenarios(rng, 12000 if ctx.thorough() else 4600)
     jobs, keep = [], []
     for rs, ds, m in scen:
         j = c06_job(rs, ds, m)
@@ -1133,13 +1160,25 @@ def test_file_text(rng, kind):
 def run_C06_test(ctx, res, rng):
     n = 1500 if ctx.thorough() else 250
     jobs, meta = [], []
-    for i in range(n):
-        layout = rng.choice(["single", "single", "dir"])
-        fmt = rng.choice(["plain", "json", "yaml", "junit"])
+    # every ORDERED pair of file classes, in every format and both layouts (a later file must not erase an earlier result)
+    forced = []
+    fcls = [("ok", "match"), ("ok", "mismatch"), ("ok", "unparsable"), ("bad", "match"), ("empty", "match")]
+    for fmt in ("plain", "json", "yaml", "junit"):
+        for a in fcls:
+            for b in fcls:
+                forced.append(("dir", fmt, [a[0], b[0]], [[a[1]], [b[1]]]))
+        for rk in ("ok", "bad", "empty"):
+            for k1 in ("match", "mismatch", "unparsable"):
+                for k2 in ("match", "mismatch", "unparsable"):
+                    forced.append(("single", fmt, [rk], [[k1, k2]]))
+    for i in range(n + len(forced)):
+        fz = forced[i] if i < len(forced) else None
+        layout = fz[0] if fz else rng.choice(["single", "single", "dir"])
+        fmt = fz[1] if fz else rng.choice(["plain", "json", "yaml", "junit"])
         oargs = [] if fmt == "plain" else ["-o", fmt]
         if layout == "single":
-            rk = rng.choice(["ok", "ok", "ok", "bad", "empty"])
-            kinds = [rng.choice(["match", "match", "mismatch", "unparsable"]) for _ in range(rng.choice([1, 1, 2]))]
+            rk = fz[2][0] if fz else rng.choice(["ok", "ok", "ok", "bad", "empty"])
+            kinds = fz[3][0] if fz else [rng.choice(["match", "match", "mismatch", "unparsable"]) for _ in range(rng.choice([1, 1, 2]))]
             files = {"r.guard": TEST_RULES[rk]}
             tfs = []
             for k, kind in enumerate(kinds):
@@ -1152,9 +1191,9 @@ def run_C06_test(ctx, res, rng):
             meta.append((layout, fmt, [rk], [kinds], model))
         else:
             rks, allk, files, mrules = [], [], {}, []
-            for j in range(rng.choice([1, 2, 3])):
-                rk = rng.choice(["ok", "ok", "bad", "empty"])
-                kinds = [rng.choice(["match", "match", "mismatch", "unparsable"]) for _ in range(rng.choice([1, 2]))]
+            for j in range(len(fz[2]) if fz else rng.choice([1, 2, 3])):
+                rk = fz[2][j] if fz else rng.choice(["ok", "ok", "bad", "empty"])
+                kinds = fz[3][j] if fz else [rng.choice(["match", "match", "mismatch", "unparsable"]) for _ in range(rng.choice([1, 2]))]
                 files["f%d.guard" % j] = TEST_RULES[rk]
                 tfs = []
                 for k, kind in enumerate(kinds):
@@ -2139,6 +2178,10 @@ def run_C07(ctx):
                 f2 = dict(files, **{"r2.guard": r2})
                 b2 = ["validate", "-r", "{DIR}/r.guard", "-r", "{DIR}/r2.guard", "-d", "{DIR}/d.json"]
                 row["two"] = {"S-all": add({"argv": b2 + ["-S", "all"], "files": f2}),
+                              "payload-plain": add({"argv": ["validate", "--payload", "-S", "all"], "files": {},
+                                                    "stdin": json.dumps({"rules": [rules, r2], "data": [data]})}),
+                              "payload-plain-rev": add({"argv": ["validate", "--payload", "-S", "all"], "files": {},
+                                                        "stdin": json.dumps({"rules": [r2, rules], "data": [data]})}),
                               "s-json": add({"argv": b2 + ["--structured", "-o", "json", "-S", "none"], "files": f2}),
                               "s-yaml": add({"argv": b2 + ["--structured", "-o", "yaml", "-S", "none"], "files": f2}),
                               "payload-json": add({"argv": ["validate", "--payload", "--structured", "-o", "json", "-S", "none"], "files": {},
@@ -2266,6 +2309,9 @@ def run_C07(ctx):
         # two rules files sharing rule names: summary tables vs structured report vs payload, as unions per status
         if "two" in row:
             t2 = {k: outs[j] for k, j in row["two"].items()}
+            # (with a parse error the plain fold keeps the LAST non-zero code, the structured one 19 over 5: C06's domain)
+            if all(v["code"] in (0, 19) for v in t2.values()) and len({v["code"] for v in t2.values()}) != 1:
+                bad.append("two rules files: exit codes differ between renderings / entry points: %s" % {k: v["code"] for k, v in t2.items()})
             if all(v["code"] in (0, 19) for v in t2.values()):
                 res.stats["two-rules-files-sharing-names"] += 1
                 part, _ = table(t2["S-all"]["stdout"])
